@@ -56,8 +56,8 @@ impl ArrValue {
     { unimplemented!() }
 }
 
-// u32::div_ceil: contract discharged separately by Kani over all u32 x u32 (unit arr_divceil).
-pub assume_specification[ u32::div_ceil ](a: u32, b: u32) -> (r: u32)
+// usize::div_ceil: std contract (mathematical ceiling division), ASSUMED.
+pub assume_specification[ usize::div_ceil ](a: usize, b: usize) -> (r: usize)
     requires b != 0,
     ensures r as int == (a as int + b as int - 1) / (b as int);
 
@@ -80,8 +80,8 @@ pub proof fn lemma_slice_idx(d: int, step: int, index: int)
 // ================================================================ SliceArray
 pub struct SliceArray {
     pub inner: ArrValue,
-    pub from: u32,
-    pub to: u32,
+    pub from: usize,
+    pub to: usize,
     pub step: u32,
 }
 
